@@ -395,7 +395,7 @@ PROPS['C28'] = {
 }
 PROPS['C37'] = {
     'rules': [R(sg.rule_TC1), R(sg.rule_SG1), R(sg.rule_SG2), R(pc.rule_PC1), R(pa.rule_SS1), R(pa.rule_NL1), R(ss.rule_SS3), R(ss.rule_SS7), R(ss.rule_PR1), R(fx.rule_FX1), R(fx.rule_FX3), R(op.rule_OP6), R(op.rule_OP7), R(sg.rule_AW1), R(sn.rule_SN1), R(sn.rule_SN2), R(sn.rule_SN3)],
-    'floors': {'OP7': 12, 'AW1': 18, 'TC1': 10, 'SG1': 10, 'SG2': 1, 'PC1': 40, 'SS1': 60, 'NL1': 25, 'SS3': 9, 'SS7': 8, 'PR1': 12, 'FX1': 60, 'FX3': 15, 'OP6': 14, 'SN1': 5, 'SN2': 2, 'SN3': 3},
+    'floors': {'OP7': 12, 'AW1': 18, 'TC1': 10, 'SG1': 10, 'SG2': 1, 'PC1': 40, 'SS1': 60, 'NL1': 25, 'SS3': 9, 'SS7': 8, 'PR1': 12, 'FX1': 60, 'FX3': 15, 'OP6': 14, 'SN1': 4, 'SN2': 2, 'SN3': 3},
     'explanation': 'Sibling and plumbing clauses for code the suite cannot even import (no numpy): array coroutines agree with their scalar siblings on '
                    'mask bounds (as linear forms), opening thresholds, option/field-size case splits, PRSS calls and head-room (SG1); a type that is an '
                    'array type is never tested against a scalar secure class (TC1); integral= is passed to polymorphic constructors only under a '
@@ -441,7 +441,7 @@ PROPS['C06'] = {
 
 PROPS['C29'] = {
     'rules': [R(sn.rule_SN1), R(sn.rule_SN2), R(sn.rule_SN3), R(sn.rule_SN4), R(sn.rule_SN5), R(sn.rule_SN6)],
-    'floors': {'SN1': 5, 'SN2': 2, 'SN3': 3, 'SN4': 10, 'SN5': 8, 'SN6': 3},
+    'floors': {'SN1': 4, 'SN2': 2, 'SN3': 3, 'SN4': 10, 'SN5': 8, 'SN6': 3},
     'explanation': 'Structural clauses of sorting and selection. (SN2) every compare-exchange of _sort / np_sort writes exactly the two positions it read, the '
                    'smaller element to the lower index -- otherwise the output is not a permutation of the input, or not ascending; (SN1) the list and the '
                    'array implementation apply one and the same comparator schedule (initialisation, both loops, index predicate i & p == r over '
